@@ -27,7 +27,7 @@ impl X {
         match &v.v {
             Pay::Null => "NULL".into(), Pay::Bool(b) => if *b { "TRUE".into() } else { "FALSE".into() }, Pay::Int(i) => i.to_string(),
             // floats: own spelling (exponent form is a floating-point literal in all three engines), independent of the crate's
-            Pay::Num(t) => match &v.real { Value::Double(Some(x)) => format!("{x:e}"), Value::Float(Some(x)) => format!("{:e}", *x as f64), _ => t.clone() },
+            Pay::Num(t) => match &v.real { Value::Double(Some(x)) => format!("{x:e}"), Value::Float(Some(x)) => format!("{x:e}"), _ => t.clone() },
             Pay::Str(s) => match self.b { B::Mysql => format!("'{}'", s.replace('\\', "\\\\").replace('\'', "''")), _ => format!("'{}'", s.replace('\'', "''")) },
             Pay::Bytes(b) => if self.b == B::Postgres { format!("'\\x{}'", hex(b).to_uppercase()) } else { format!("x'{}'", hex(b)) },
             Pay::Quoted(t) => format!("'{t}'"),
